@@ -38,6 +38,7 @@ BOOL = py2lean.BOOL
 LSTR = ('List', STR)
 LINT = ('List', INT)
 
+_CLASS_TABLES = {}            # pattern -> runs (cache: one evaluation of the regex on every code point per pattern)
 DEQUE_METHODS = ('append', 'popleft', 'clear', 'extend')
 # a Name load of an owned / deque local is allowed exactly in these positions (see `_Pre._uses_ok`)
 PURE_CONSUMERS = ('len', 'min', 'max', 'sorted', 'list', 'tuple', 'set', 'sum')
@@ -506,6 +507,17 @@ class _Pre:
                 self.generic_visit(n)
                 if isinstance(n.op, ast.Add):
                     return _op('add', [n.left, n.right], n)       # type-directed: str + str, else the base `+`
+                if isinstance(n.op, ast.Sub):
+                    return _op('sub', [n.left, n.right], n)       # type-directed: set - set, else the base `-`
+                if isinstance(n.op, ast.Mult):
+                    return _op('mul', [n.left, n.right], n)       # type-directed: str * int, else the base `*`
+                return n
+
+            def visit_For(self, n):
+                self.generic_visit(n)
+                if isinstance(n.iter, ast.Name):
+                    # type-directed: iteration over a string = over its one-character strings; else the iterable itself
+                    n.iter = _op('iter', [n.iter], n.iter)
                 return n
 
             def visit_ListComp(self, n):
@@ -521,6 +533,22 @@ class _Pre:
 
             def visit_Compare(self, n):
                 self.generic_visit(n)
+                if len(n.ops) == 1 and isinstance(n.ops[0], (ast.Is, ast.IsNot)) \
+                        and isinstance(n.comparators[0], ast.Constant) and n.comparators[0].value is None \
+                        and isinstance(n.left, ast.Call) and isinstance(n.left.func, ast.Name) \
+                        and len(n.left.args) == 1 and not n.left.keywords \
+                        and not isinstance(n.left.args[0], ast.Starred):
+                    # `<module-level compiled one-character-class regex>.search(s) is None`: no character of `s` is
+                    # in the class - a spec-declared predicate whose meaning is the TABLE obtained by evaluating the
+                    # regex on every code point (the same table as Generated/C14_ShTables.lean `shSafeRanges`)
+                    runs = pre._class_search_table(n.left.func.id)
+                    if runs is not None:
+                        pre.note('regex-class')
+                        t = ast.copy_location(ast.Constant(value=';'.join('%d,%d' % r for r in runs)), n)
+                        r = _op('none_in_class', [t, n.left.args[0]], n)
+                        if isinstance(n.ops[0], ast.IsNot):
+                            r = ast.copy_location(ast.UnaryOp(op=ast.Not(), operand=r), n)
+                        return r
                 if len(n.ops) == 1 and isinstance(n.ops[0], (ast.In, ast.NotIn)):
                     # type-directed: substring test on two strings, else the base membership test
                     return _op('in' if isinstance(n.ops[0], ast.In) else 'not_in', [n.left, n.comparators[0]], n)
@@ -548,12 +576,23 @@ class _Pre:
                     if m == 'join' and len(args) == 1 and not isinstance(args[0], ast.Starred):
                         pre.note('join')
                         return _op('join', [recv, args[0]], n)
+                    if m == 'replace' and len(args) == 2 and not any(isinstance(x, ast.Starred) for x in args):
+                        pre.note('replace')
+                        return _op('replace', [recv, args[0], args[1]], n)
                     if m == 'strip' and not args:
                         pre.note('strip')
                         return _op('strip', [recv], n)
                     if m == 'split' and len(args) == 1 and not isinstance(args[0], ast.Starred):
                         pre.note('split')
                         return _op('split', [recv, args[0]], n)
+                    return n
+                if isinstance(n.func, ast.Name) and not n.keywords and n.func.id in ('set', 'frozenset', 'sorted') \
+                        and len(n.args) == 1 and pre._builtin(n.func.id) and isinstance(n.args[0], ast.Call) \
+                        and isinstance(n.args[0].func, ast.Name) and n.args[0].func.id == 'range' \
+                        and not n.args[0].keywords and 1 <= len(n.args[0].args) <= 2 and pre._builtin('range') \
+                        and not any(isinstance(a, ast.Starred) for a in n.args[0].args):
+                    pre.note('list-range')                    # the consumer exhausts the range object
+                    n.args[0] = _op('range', n.args[0].args, n.args[0])
                     return n
                 if isinstance(n.func, ast.Name) and not n.keywords and n.func.id in ('list', 'tuple') \
                         and len(n.args) == 1 and pre._builtin(n.func.id):
@@ -580,13 +619,209 @@ class _Pre:
                 return n
         self.f = T().visit(self.f)
 
+    # -- module-level `name = re.compile('<one character class>').search` -----------------------------------------------
+    def _class_search_table(self, name):
+        """maximal runs of code points c with `name(chr(c)) is None`, or None when `name` is not provably the bound
+        `search` of a flag-free compiled pattern that is ONE character class (then `search(s) is None` iff no
+        character of `s` matches)"""
+        import re
+        b = self._module_binds(name)
+        if self._local_stores(name) or len(b) != 1 or not isinstance(b[0], ast.Assign) or len(b[0].targets) != 1 \
+                or not isinstance(b[0].targets[0], ast.Name):
+            return None
+        v = b[0].value
+        if not (isinstance(v, ast.Attribute) and v.attr == 'search' and isinstance(v.value, ast.Call)
+                and isinstance(v.value.func, ast.Attribute) and v.value.func.attr == 'compile'
+                and isinstance(v.value.func.value, ast.Name) and self._is_std_module(v.value.func.value.id, 're')
+                and len(v.value.args) == 1 and not v.value.keywords and isinstance(v.value.args[0], ast.Constant)
+                and isinstance(v.value.args[0].value, str)):
+            return None
+        pat = v.value.args[0].value
+        if pat in _CLASS_TABLES:
+            return _CLASS_TABLES[pat]
+        try:
+            tree = re._parser.parse(pat, 0)
+            cp = re.compile(pat)
+        except Exception:
+            return None
+        if len(tree) != 1 or str(tree[0][0]) not in ('IN', 'LITERAL', 'NOT_LITERAL') or cp.flags != re.UNICODE:
+            return None
+        runs, lo = [], None
+        search = cp.search
+        for c in range(0x110000):
+            safe = (not 0xD800 <= c <= 0xDFFF) and search(chr(c)) is None
+            if safe and lo is None:
+                lo = c
+            if not safe and lo is not None:
+                runs.append((lo, c - 1))
+                lo = None
+        if lo is not None:
+            runs.append((lo, 0x10FFFF))
+        _CLASS_TABLES[pat] = runs
+        return runs
+
+    # -- R4: an Optional parameter given its default inside `if p is None:` -----------------------------------------
+    def _definitely_assigns(self, stmts, p):
+        for st in stmts:
+            if isinstance(st, ast.Assign) and len(st.targets) == 1 and isinstance(st.targets[0], ast.Name) \
+                    and st.targets[0].id == p:
+                return True
+            if isinstance(st, ast.If) and st.orelse and self._definitely_assigns(st.body, p) \
+                    and self._definitely_assigns(st.orelse, p):
+                return True
+        return False
+
+    def r_opt_param(self):
+        """top level `if p is None: A` (no else; `A` assigns `p` on every path; `p` a parameter the spec declares
+        `Option T`, not stored before):  ->  `if p is None: A[p := q] else: q = p`, and `q` for `p` in everything after
+        (a renaming: after the statement `p` is never None; `q` has the type `T`)"""
+        for i, st in enumerate(self.f.body):
+            if not (isinstance(st, ast.If) and not st.orelse and isinstance(st.test, ast.Compare)
+                    and len(st.test.ops) == 1 and isinstance(st.test.ops[0], ast.Is)
+                    and isinstance(st.test.left, ast.Name) and isinstance(st.test.comparators[0], ast.Constant)
+                    and st.test.comparators[0].value is None):
+                continue
+            p = st.test.left.id
+            if p not in self.spec['params'] or not self.spec['params'][p].startswith('Option ') \
+                    or not self._definitely_assigns(st.body, p):
+                continue
+            before = ast.Module(body=self.f.body[:i], type_ignores=[])
+            if any(isinstance(x, ast.Name) and x.id == p and isinstance(x.ctx, (ast.Store, ast.Del))
+                   for x in ast.walk(before)):
+                continue
+            if any(isinstance(x, (ast.FunctionDef, ast.Lambda, ast.ClassDef)) for x in ast.walk(
+                    ast.Module(body=self.f.body[i:], type_ignores=[]))):
+                continue
+            q = '_c14p_' + p
+
+            class R(ast.NodeTransformer):
+                def visit_Name(self, n):
+                    if n.id == p:
+                        return ast.copy_location(ast.Name(id=q, ctx=n.ctx), n)
+                    return n
+            st.body = [R().visit(x) for x in st.body]
+            st.orelse = [_assign(q, _name(p, st), st)]
+            self.f.body[i + 1:] = [R().visit(x) for x in self.f.body[i + 1:]]
+            self.note('opt-param')
+
+    # -- R5: `a, b = E` (E not a display) -------------------------------------------------------------------------------
+    def r_unpack(self):
+        pre = self
+
+        def rewrite_block(stmts):
+            out = []
+            for st in stmts:
+                for fld in ('body', 'orelse', 'finalbody'):
+                    if hasattr(st, fld) and isinstance(getattr(st, fld), list):
+                        setattr(st, fld, rewrite_block(getattr(st, fld)))
+                if isinstance(st, ast.Try):
+                    for h in st.handlers:
+                        h.body = rewrite_block(h.body)
+                if isinstance(st, ast.Assign) and len(st.targets) == 1 and isinstance(st.targets[0], ast.Tuple) \
+                        and len(st.targets[0].elts) == 2 and all(isinstance(e, ast.Name) for e in st.targets[0].elts) \
+                        and st.targets[0].elts[0].id != st.targets[0].elts[1].id \
+                        and not isinstance(st.value, (ast.Tuple, ast.List)):
+                    t = pre.fresh()
+                    a, b = st.targets[0].elts
+                    pre.note('unpack2')
+                    out.append(_assign(t, _op('unpack2', [st.value], st), st))
+                    for k, tgt in enumerate((a, b)):
+                        out.append(_assign(tgt.id, ast.copy_location(ast.Subscript(
+                            value=_name(t, st), slice=ast.copy_location(ast.Constant(value=k), st), ctx=ast.Load()), st), st))
+                else:
+                    out.append(st)
+            return out
+        self.f.body = rewrite_block(self.f.body)
+
+    # -- R6: calls of other translated module-level functions ---------------------------------------------------------------
+    def r_calls(self):
+        pre = self
+        callees = {sp['qualname']: sp for sp in _module_specs(self.spec) if sp is not self.spec
+                   and '.' not in sp['qualname'] and sp['qualname'] != self.spec['qualname']}
+        defs = {n.name: n for n in (self.tree.body if self.tree is not None else []) if isinstance(n, ast.FunctionDef)}
+
+        class T(ast.NodeTransformer):
+            def visit_Call(self, n):
+                self.generic_visit(n)
+                if not (isinstance(n.func, ast.Name) and n.func.id in callees and n.func.id in defs):
+                    return n
+                f = n.func.id
+                if pre._local_stores(f) or len(pre._module_binds(f)) != 1:
+                    raise Unsupported(n, 'callee %s is rebound' % f)
+                fd = defs[f]
+                a = fd.args
+                if a.vararg or a.kwarg or a.kwonlyargs or a.posonlyargs or fd.decorator_list:
+                    raise Unsupported(n, 'callee %s: signature' % f)
+                names = [x.arg for x in a.args]
+                dflt = dict(zip(names[len(names) - len(a.defaults):], a.defaults))
+                if any(isinstance(x, ast.Starred) for x in n.args) or any(k.arg is None for k in n.keywords) \
+                        or len(n.args) > len(names):
+                    raise Unsupported(n, 'call of %s with star arguments' % f)
+                got = dict(zip(names, n.args))
+                for k in n.keywords:
+                    if k.arg in got or k.arg not in names:
+                        raise Unsupported(n, 'call of %s: keyword %s' % (f, k.arg))
+                    got[k.arg] = k.value
+                # Python evaluates positional arguments, then keywords, left to right: keep that order only when it is
+                # the parameter order (else refuse: the hoisted operations would be reordered)
+                order = [names.index(x) for x in list(got)]
+                if order != sorted(order):
+                    raise Unsupported(n, 'call of %s: keywords out of parameter order' % f)
+                full = []
+                for x in names:
+                    if x in got:
+                        full.append(got[x])
+                    elif x in dflt and isinstance(dflt[x], ast.Constant):
+                        full.append(copy.deepcopy(dflt[x]))        # a constant default: evaluated once, immutable
+                    else:
+                        raise Unsupported(n, 'call of %s: argument %s missing' % (f, x))
+                pre.note('call')
+                return _op('call.' + f, full, n)
+        self.f = T().visit(self.f)
+
     def run(self):
         self.f = copy.deepcopy(self.f)
+        self.r_opt_param()
+        self.r_unpack()
         self.r_deque()
         self.r_mutation()
+        self.r_calls()
         self.r_exprs()
         ast.fix_missing_locations(self.f)
         return self.f
+
+
+def _module_specs(spec):
+    """the specs of this extension for the same module, in emission order (callee lookup)"""
+    try:
+        import srctie_specs
+    except ImportError:
+        return []
+    out = []
+    for specs in srctie_specs.SPECS.values():
+        for sp in specs:
+            if sp.get('ext') == 'py2lean_c14' and sp.get('module') == spec.get('module') and sp not in out:
+                out.append(sp)
+    return out
+
+
+def _only_sorted_uses(fdef, param):
+    """every read of `param` in the callee is the sole argument of `sorted(...)` without key: the callee's result
+    does not depend on the order (nor on duplicates' positions) of the items it is given"""
+    parents = {}
+    for n in ast.walk(fdef):
+        for c in ast.iter_child_nodes(n):
+            parents[id(c)] = n
+    uses = 0
+    for n in ast.walk(fdef):
+        if isinstance(n, ast.Name) and n.id == param:
+            if not isinstance(n.ctx, ast.Load):
+                return False
+            p = parents.get(id(n))
+            if not (_is_call_of(p, 'sorted', 1) and p.args[0] is n):
+                return False
+            uses += 1
+    return uses > 0 and not any(isinstance(n, ast.FunctionDef) and n.name == 'sorted' for n in ast.walk(fdef))
 
 
 def prepass(fdef, tree, spec, notes):
@@ -664,9 +899,83 @@ def translate_op(ex, node, expected):
         if t == INT:
             return '(PyRtC14.fmtD %s)' % atom(e), STR
         raise Unsupported(node, 'formatting a value of type %s' % (t,))
+    if name.startswith('call.'):
+        f = name[len('call.'):]
+        sp = [x for x in _module_specs(ex.fn.spec) if x['qualname'] == f]
+        if not sp or not sp[0].get('raises') or sp[0].get('kind') != 'function' or len(a) != len(sp[0]['params']):
+            raise Unsupported(node, 'call of %s: not a translated function of this module' % f)
+        sp = sp[0]
+        if ex.fn.emitted is not None and sp['lean_name'] not in ex.fn.emitted:
+            raise Unsupported(node, 'callee %s is not translated (or comes later in the file)' % f)
+        if not ex.fn.raises:
+            raise Unsupported(node, 'a raising operation outside the raising mode')
+        terms = []
+        for arg, (pn, ptxt) in zip(a, sp['params'].items()):
+            pt = py2lean.parse_type(ptxt)
+            at = _types(ex, [arg])[0]
+            if at is not None and at[0] == 'Set' and pt[0] == 'List' and at[1] == pt[1]:
+                fd = ex.fn.module_defs.get(f)
+                if fd is None or not _only_sorted_uses(fd, pn):
+                    raise Unsupported(node, 'a set passed to %s(%s=...), which does not only sort it' % (f, pn))
+                e, _ = ex.expr(arg)
+                terms.append('(PyRt.Set.toList %s)' % atom(e))
+            else:
+                e, _ = ex.expr(arg, pt)
+                terms.append(atom(e))
+        return ex.partial('%s %s' % (sp['lean_name'], ' '.join(terms)), node), py2lean.parse_type(sp['result'])
+    if name == 'mul' and len(a) == 2:
+        ts = _types(ex, a)
+        if ts[0] == STR and ts[1] == INT:
+            l, _ = ex.expr(a[0], STR)
+            r, _ = ex.expr(a[1], INT)
+            return '(PyRtC14.repeatStr %s %s)' % (atom(l), atom(r)), STR
+        n = ast.copy_location(ast.BinOp(left=a[0], op=ast.Mult(), right=a[1]), node)
+        return ex._binop(n)
+    if name == 'iter' and len(a) == 1:
+        ts = _types(ex, a)
+        if ts[0] == STR:
+            e, _ = ex.expr(a[0], STR)
+            return '(PyRtC14.chars %s)' % atom(e), LSTR
+        return ex.expr(a[0], expected)
+    if name == 'none_in_class' and len(a) == 2:
+        e, _ = ex.expr(a[1], STR)
+        runs = [tuple(int(x) for x in r.split(',')) for r in a[0].value.split(';')] if a[0].value else []
+        tab = '([%s] : List (Nat × Nat))' % ', '.join('(%d, %d)' % r for r in runs)
+        return '(PyRtC14.allInRanges %s %s)' % (tab, atom(e)), BOOL
+    if name == 'replace' and len(a) == 3:
+        e, t = ex.expr(a[0])
+        _need([t])
+        if t != STR:
+            raise Unsupported(node, 'replace() of %s' % (t,))
+        o, _ = ex.expr(a[1], STR)
+        n_, _ = ex.expr(a[2], STR)
+        return '(PyRtC14.replace %s %s %s)' % (atom(e), atom(o), atom(n_)), STR
+    if name == 'sub' and len(a) == 2:
+        ts = _types(ex, a)
+        if ts[0] is not None and ts[0][0] == 'Set':
+            l, lt = ex.expr(a[0])
+            r, rt = ex.expr(a[1], lt)
+            _need([lt])
+            if lt != ('Set', INT):
+                raise Unsupported(node, 'set difference on %s' % (lt,))
+            return '(PyRtC14.setDiff %s %s)' % (atom(l), atom(r)), lt
+        n = ast.copy_location(ast.BinOp(left=a[0], op=ast.Sub(), right=a[1]), node)
+        return ex._binop(n)
+    if name == 'unpack2' and len(a) == 1:
+        e, t = ex.expr(a[0])
+        _need([t])
+        if t[0] == 'Prod' and len(t[1]) == 2:
+            return e, t
+        if t[0] != 'List':
+            raise Unsupported(node, 'unpacking %s' % (t,))
+        if not ex.fn.raises:
+            raise Unsupported(node, 'a raising operation outside the raising mode')
+        return ex.partial('PyRtC14.unpack2? %s' % atom(e), node), ('Prod', (t[1], t[1]))
     if name in ('min_list', 'max_list') and len(a) == 1:
         e, t = ex.expr(a[0])
         _need([t])
+        if t == ('Set', INT):              # order-independent: the items of the set in any order
+            e, t = '(PyRt.Set.toList %s)' % atom(e), LINT
         if t != LINT:
             raise Unsupported(node, '%s of %s' % (name[:3], t))
         if not ex.fn.raises:
@@ -810,9 +1119,59 @@ def fam_parse_int_list(rng, quick):
         yield dict(range_string=s, delim=d, range_delim=rd)
 
 
+def fam_complement_int_list(rng, quick):
+    n = 0
+    for case in fam_parse_int_list(rng, True):
+        n += 1
+        if n % (3 if quick else 1):
+            continue
+        e = rng.choice([None, None, 0, 1, 5, 12, 20, -3])
+        yield dict(range_string=case['range_string'], range_start=rng.choice([0, 0, 1, 2, 7, -2, 30]), range_end=e,
+                   delim=case['delim'], range_delim=case['range_delim'])
+    for s in ['1,3,5-8,10-11,15', '', '0', '2-4', '7,7,7']:
+        for a in (-1, 0, 1, 2, 3, 16, 20):
+            for e in (None, -1, 0, 1, 2, 13, 14, 15, 16, 20):
+                yield dict(range_string=s, range_start=a, range_end=e, delim=',', range_delim='-')
+
+
+def fam_int_ranges(rng, quick):
+    n = 0
+    for case in fam_parse_int_list(rng, True):
+        n += 1
+        if n % (2 if quick else 1) == 0:
+            yield case
+    for s in ['1,3,5-8,10-11,15', '1', '', '3-1,2', '5;7..9']:
+        yield dict(range_string=s, delim=',', range_delim='-')
+        yield dict(range_string=s, delim=';', range_delim='..')
+
+
+ARGS = ['', 'a', 'aa', '[bb]', "cc'cc", 'dd"dd', "'", "''", "a'", "'a'b'", ' ', 'a b', '\t', '$x', '`', '\\', 'a\\', 'a\\"b',
+        '\\\\', '"', '\\"', 'a-b', 'a=b', 'x/y.z', '@%+:,', 'é', '–', '\n', 'a\x00b', '*', '~', 'A_Z09', '!', '#', ';', '&|',
+        'a\\\\ b', ' \\', '\\ ', '"\\', 'tab\there', "it's", "'\"'\"'", '-', '--x', '\u3000', '\u2028x']
+
+
+def fam_args(rng, quick):
+    yield dict(args=[], sep=' ')
+    for a in ARGS:
+        yield dict(args=[a], sep=' ')
+    for _ in range(250 if quick else 3000):
+        k = rng.randint(0, 5)
+        args = []
+        for _ in range(k):
+            if rng.random() < 0.6:
+                args.append(rng.choice(ARGS))
+            else:
+                args.append(''.join(rng.choice('ab \t\'"\\$-_/.é\n') for _ in range(rng.randint(0, 7))))
+        yield dict(args=args, sep=rng.choice([' ', ' ', ',', '', '  ']))
+
+
 FAMILIES = {
+    'args2sh': fam_args,
+    'args2cmd': fam_args,
     'format_int_list': fam_format_int_list,
     'parse_int_list': fam_parse_int_list,
+    'complement_int_list': fam_complement_int_list,
+    'int_ranges_from_int_list': fam_int_ranges,
 }
 
 
@@ -863,3 +1222,16 @@ def reject_tests(verbose=True):
         if verbose:
             print('%-55s %s' % (label, 'REFUSED: ' + infos[0]['error'][:90] if infos[0].get('error') else 'TRANSLATED (!)'))
     return bad
+
+
+def selftest_pending(quick=True, seed=0):
+    """translator self-test of the functions that translate but are not tied yet (`srctie_specs.C14_PENDING`): the
+    same driver as the registered self-test, with the pending specs appended to C14's for the duration of the call"""
+    import srctie_specs
+    import py2lean_selftest
+    saved = srctie_specs.SPECS['C14']
+    srctie_specs.SPECS['C14'] = saved + srctie_specs.C14_PENDING
+    try:
+        return py2lean_selftest.run(['C14'], quick=quick, seed=seed, verbose=True)
+    finally:
+        srctie_specs.SPECS['C14'] = saved
